@@ -636,7 +636,94 @@ def t_plain(fn):
     return t.n > 0
 
 
-KINDS = {'extract0': t_extract0, 'extract1': t_extract1, 'extract2': t_extract2, 'xtest0': t_xtest0, 'xtest1': t_xtest1, 'unpack': t_unpack,
+def _hoist_attr(fn, which):
+    """the which-th most used attribute chain rooted at a parameter (`query.bbox`, `self.grid.tile_size`) that the function never
+    assigns (neither the chain, a prefix of it, nor its root) is read once into a local at the top of the function"""
+    params = [a.arg for a in fn.args.posonlyargs + fn.args.args + fn.args.kwonlyargs]
+    stored_roots = {n.id for n in ast.walk(fn) if isinstance(n, ast.Name) and isinstance(n.ctx, (ast.Store, ast.Del))}
+    stored_chains = {ast.unparse(n) for n in ast.walk(fn) if isinstance(n, ast.Attribute) and isinstance(n.ctx, (ast.Store, ast.Del))}
+    sub_stored = {ast.unparse(n.value) for n in ast.walk(fn) if isinstance(n, ast.Subscript) and isinstance(n.ctx, (ast.Store, ast.Del))}
+    count = {}
+
+    def root(n):
+        while isinstance(n, ast.Attribute):
+            n = n.value
+        return n.id if isinstance(n, ast.Name) else None
+
+    class V(ast.NodeVisitor):
+        def visit_Attribute(self, n):
+            if isinstance(n.ctx, ast.Load) and root(n) in params and root(n) not in stored_roots:
+                t = ast.unparse(n)
+                count[t] = count.get(t, 0) + 1
+            self.generic_visit(n)
+
+        def visit_Call(self, n):
+            # the function position of a call is a method lookup, not a value: do not hoist `self.f` of `self.f(x)`
+            if isinstance(n.func, ast.Attribute):
+                self.visit(n.func.value)
+            else:
+                self.visit(n.func)
+            for a in n.args:
+                self.visit(a)
+            for k in n.keywords:
+                self.visit(k.value)
+
+        def visit_FunctionDef(self, n):
+            if n is fn:
+                self.generic_visit(n)
+
+        def visit_Lambda(self, n):
+            pass
+    V().visit(fn)
+    cands = [t for t, c in sorted(count.items(), key=lambda kv: (-kv[1], kv[0])) if c >= 2 and
+             not any(sc == t or sc.startswith(t + '.') or t.startswith(sc + '.') for sc in stored_chains | sub_stored)]
+    if len(cands) <= which:
+        return False
+    chain = cands[which]
+    used = {x.id for x in ast.walk(fn) if isinstance(x, ast.Name)}
+    nm = chain.split('.')[-1].strip('_') + '_value'
+    while nm in used:
+        nm += '_'
+
+    class R(ast.NodeTransformer):
+        def visit_Attribute(self, n):
+            if isinstance(n.ctx, ast.Load) and ast.unparse(n) == chain:
+                return ast.copy_location(ast.Name(id=nm, ctx=ast.Load()), n)
+            self.generic_visit(n)
+            return n
+
+        def visit_Call(self, n):
+            if isinstance(n.func, ast.Attribute) and ast.unparse(n.func) == chain:
+                n.func.value = self.visit(n.func.value)
+            else:
+                n.func = self.visit(n.func)
+            n.args = [self.visit(a) for a in n.args]
+            for k in n.keywords:
+                k.value = self.visit(k.value)
+            return n
+
+        def visit_Lambda(self, n):
+            return n
+
+        def visit_FunctionDef(self, n):
+            if n is fn:
+                self.generic_visit(n)
+            return n
+    R().visit(fn)
+    k = 1 if fn.body and isinstance(fn.body[0], ast.Expr) and isinstance(fn.body[0].value, ast.Constant) else 0
+    fn.body.insert(k, ast.Assign(targets=[ast.Name(id=nm, ctx=ast.Store())], value=ast.parse(chain, mode='eval').body))
+    return True
+
+
+def t_hoistattr0(fn):
+    return _hoist_attr(fn, 0)
+
+
+def t_hoistattr1(fn):
+    return _hoist_attr(fn, 1)
+
+
+KINDS = {'hoistattr0': t_hoistattr0, 'hoistattr1': t_hoistattr1, 'extract0': t_extract0, 'extract1': t_extract1, 'extract2': t_extract2, 'xtest0': t_xtest0, 'xtest1': t_xtest1, 'unpack': t_unpack,
          'plain': t_plain, 'rename': t_rename, 'swap': t_swap, 'flip': t_flip, 'alias': t_alias, 'early': t_early, 'demorgan': t_demorgan,
          'comp2loop': t_comp2loop, 'forunpack': t_forunpack, 'ifexp': t_ifexp, 'hoist': t_hoist}
 
